@@ -1,4 +1,6 @@
+pub mod affine;
 pub mod alias;
+pub mod exact32;
 pub mod fault;
 pub mod hist;
 pub mod tree;
@@ -12,9 +14,11 @@ pub fn engine_for(property: &str) -> Option<Box<dyn Engine>> {
     match property {
         "C03" => Some(Box::new(fault::FaultEngine::new("C03"))),
         "C05" => Some(Box::new(fault::FaultEngine::new("C05"))),
+        "C07" => Some(Box::new(affine::AffineEngine)),
         "C08" => Some(Box::new(alias::AliasEngine)),
         "C09" => Some(Box::new(tree::TreeEngine::new("C09"))),
         "C10" => Some(Box::new(tree::TreeEngine::new("C10"))),
+        "C13" => Some(Box::new(exact32::Exact32Engine)),
         "C14" => Some(Box::new(hist::HistEngine::purity())),
         "C15" => Some(Box::new(hist::HistEngine::serde())),
         _ => None,
